@@ -118,6 +118,8 @@ pub enum Order {
     /// corporate actions and events first inside each day
     ActionsFirst,
     Shuffled(u64),
+    /// inside each day: first fills of every cell, then second fills (securities interleaved)
+    Interleaved,
 }
 
 #[derive(Debug, Clone, Copy, PartialEq, Eq)]
@@ -270,6 +272,19 @@ pub fn render(rec: &Rec, r: &Render) -> Vec<Transaction> {
             let (a, b): (Vec<_>, Vec<_>) = out.into_iter().partition(|t| !is_trade(t));
             out = a;
             out.extend(b);
+        }
+        Order::Interleaved => {
+            // stable: by date, then by occurrence number of the (ticker, kind) pair within the day
+            let mut seen: std::collections::HashMap<(NaiveDate, String, bool), usize> = std::collections::HashMap::new();
+            let mut keyed: Vec<(NaiveDate, usize, usize, Transaction)> = Vec::new();
+            for (i, t) in out.into_iter().enumerate() {
+                let k = (t.date, t.ticker.clone(), is_sell(&t));
+                let n = seen.entry(k).or_insert(0);
+                *n += 1;
+                keyed.push((t.date, *n, i, t));
+            }
+            keyed.sort_by_key(|x| (x.0, x.1, x.2));
+            out = keyed.into_iter().map(|x| x.3).collect();
         }
         Order::Shuffled(seed) => {
             use rand::SeedableRng;
